@@ -7,8 +7,10 @@
    method of Calc_Model.v.  Feature gate ElasticQuotaGuaranteeUsage off, min-quota scaling off, no
    change of parent / isParent / allowLent (those reset the whole tree).  Executable, no proofs.
 
-   [fx] = false is the code as it is; [fx] = true adds the one call the code lacks in
-   doUpdateOneGroupMinQuotaNoLock (see findings/C02-stale-request-after-min-update.md). *)
+   [fx] = true is the code as it is since commit cf84410 (doUpdateOneGroupMinQuotaNoLock also
+   pushes the changed request of a non-lending quota to the parent's calculator); [fx] = false is
+   the code before that repair, kept as the regression witness of
+   findings/C02-stale-request-after-min-update.md. *)
 From Coq Require Import List ZArith Bool.
 From Verif Require Import C02.Model C02.Calc_Model.
 Import ListNotations.
@@ -96,7 +98,7 @@ Definition do_max (k v : Z) (st : mgr) : mgr :=
   end.
 
 (* doUpdateOneGroupMinQuotaNoLock: Min, AutoScaleMin and (for a non-lending quota) Request change;
-   only the min is pushed to the parent's calculator *)
+   the min is pushed to the parent's calculator, then (cf84410) the request through need…/update… *)
 Definition do_min (fx : bool) (k v : Z) (st : mgr) : mgr :=
   match afind k (g_quotas st) with
   | None => st
@@ -105,9 +107,10 @@ Definition do_min (fx : bool) (k v : Z) (st : mgr) : mgr :=
       let mq1 := mkMQ (m_parent mq) (m_isParent mq) (q_set_min v q) v (m_childReq mq) in
       let q' := q_set_req (real_request mq1 (m_childReq mq)) (q_set_min v q) in
       let st1 := set_quota k (with_info mq1 q') st in
-      let st2 := upd_calc (m_parent mq) (updateOneGroupMinQuota k q') st1 in
-      let st3 := if fx then upd_calc (m_parent mq) (push_request k q') st2 else st2 in
-      rec_delta (path (m_parent mq) st3) (limit_req q' - limit_req q) st3
+      let st2 := upd_calc (m_parent mq)
+                   (fun c => let c1 := updateOneGroupMinQuota k q' c in
+                             if fx then push_request k q' c1 else c1) st1 in
+      rec_delta (path (m_parent mq) st2) (limit_req q' - limit_req q) st2
   end.
 
 (* doUpdateOneGroupSharedWeightNoLock *)
